@@ -772,9 +772,27 @@ def wl_spin_chains(rng, rec, tier):
             b += c, a1
             one.append((c, a1))
         sp_ = {k: rl.dense(qu.spin_operator(k, S=0.5)) for k in pool}
+        # a site-specific bond term (takes precedence over the default on that bond),
+        # written with the sites in either order: operator k acts on the k-th site named
+        special = None
+        if L >= 3 and rng.random() < 0.4:
+            i0 = int(rng.integers(0, L - 1))
+            key = (i0, i0 + 1) if rng.random() < 0.5 else (i0 + 1, i0)
+            sterms = []
+            for _ in range(int(rng.integers(1, 3))):
+                c = float(np.round(rng.normal(), 3)) or 0.5
+                a1, a2 = gen.choice(rng, pool), gen.choice(rng, pool)
+                b[key] += c, a1, a2
+                sterms.append((c, a1, a2))
+            special = (i0, key, sterms)
+            desc["special"] = [list(key), sterms]
         want = np.zeros((2 ** L, 2 ** L), dtype=complex)
         bonds = [(i, i + 1) for i in range(L - 1)] + ([(L - 1, 0)] if cyclic else [])
         for (i, jx) in bonds:
+            if special is not None and (i, jx) == (special[0], special[0] + 1):
+                for c, a1, a2 in special[2]:
+                    want += c * rl.embed(np.kron(sp_[a1], sp_[a2]), [2] * L, list(special[1]))
+                continue
             for c, a1, a2 in two:
                 want += c * rl.embed(np.kron(sp_[a1], sp_[a2]), [2] * L, [i, jx])
         for i in range(L):
